@@ -435,6 +435,11 @@ voc_write_header (SF_PRIVATE *psf, int calc_length)
 		} ;
 
 	subformat = SF_CODEC (psf->sf.format) ;
+
+	/* The rate constants below are quotients of the sample rate. */
+	if (psf->sf.samplerate < 1)
+		return SFE_VOC_BAD_FORMAT ;
+
 	/* Reset the current header length to zero. */
 	psf->header.ptr [0] = 0 ;
 	psf->header.indx = 0 ;
